@@ -75,12 +75,19 @@ def run(res):
     ok, what = (True, "")
     if THEOREMS:
         ok, what = proof_phase(res, "C03", THEOREMS)
-    r = bulk_compare(["exprgen", res.tier, res.seed], "C03")
-    for (c, i, m) in r["mismatches"][:5]:
+    import exprtext
+    r = exprtext.run(res.tier, res.seed, "C03")
+    n_text = 0
+    for (c, i, m) in r["mismatches"]:
         f = c.split("\t")
-        res.violation("generated text differs from the Coq model of the expression generator (%s context): impl=%s model=%s" % (
-            f[1], dec(i.split("|")[0])[:300], dec(m.split("|")[0])[:300]),
-            {"case": f, "impl": i, "model": m}, no_input=True)
+        aspects = exprtext.classify(c, i, m) if f[0] == "attrgen" else {"value"}
+        if not (aspects & {"value", "other"}):
+            continue   # guard / l-value / binding-map deviations are reported by C06 / C11 / C07
+        n_text += 1
+        if n_text <= 5:
+            res.violation("generated value text differs from the Coq model of the expression generator (%s context): impl=%s model=%s" % (
+                f[1], dec(i.split("|")[0])[:300], dec(m.split("|")[0])[:300]),
+                {"case": f, "impl": i, "model": m}, no_input=True)
     exprs, n_eval, n_skip, n_err, shapes, sizes, bad = value_diff(res, res.tier, res.seed)
     # a text mismatch accompanied by a value mismatch is a concrete failing input: keep only those as "with input"
     if bad:
